@@ -514,6 +514,7 @@ void
         new_len = *prev_len;
     } else {
 	new_len = alpha * *prev_len;
+	if ( new_len <= *prev_len ) new_len = *prev_len + 1; /* always grow */
     }
     
     if ( type == LSUB || type == USUB ) lword = sizeof(int_t);
@@ -530,6 +531,7 @@ void
 		    if ( ++tries > 10 ) return (NULL);
 		    alpha = Reduce(alpha);
 		    new_len = alpha * *prev_len;
+		    if ( new_len <= *prev_len ) new_len = *prev_len + 1;
 		    new_mem = (void *) SUPERLU_MALLOC((size_t)new_len * lword);
 		}
 	    }
@@ -572,6 +574,7 @@ void
 		    if ( ++tries > 10 ) return (NULL);
 		    alpha = Reduce(alpha);
 		    new_len = alpha * *prev_len;
+		    if ( new_len <= *prev_len ) new_len = *prev_len + 1;
 		    extra = (new_len - *prev_len) * lword;	    
 		}
 	    }
